@@ -43,6 +43,9 @@ def _run_paths(world, con, inst, mode, sizes=None):
     holder = {}
 
     def run(ctx):
+        from . import logic as _L
+
+        _L._ID[0] = 0  # deterministic bound-variable names: the same VC text on every run
         for a in _base_axioms():
             ctx.assume(a, tag="base")
         k = K(world, con, inst, mode=mode, sizes=sizes)
@@ -192,6 +195,8 @@ def run_instance(cid, inst_index, tier, seed=0, repo_src=None, native_trials=0, 
         for b in bad:
             res["checker_errors"].append({"where": f"{cid}[{label}]", "trace": "proof succeeded but the real code violates the contract natively: " + json.dumps(b, default=str)[:2000]})
     res["wall_s"] = time.time() - t0
+    if os.environ.get("PYVC_PROFILE") and res["wall_s"] > 3:
+        print(f"PROFILE {cid}[{label}] wall={res['wall_s']:.1f} solver={res['solver_s']:.1f} obligations={len(res['obligations'])} slowest={sorted(((o['secs'], o['id'].split('#')[1][:40]) for o in res['obligations']), reverse=True)[:3]}", flush=True)
     return res
 
 
